@@ -112,6 +112,7 @@ struct Global {
     uint32_t tsc_last = 0;
     uint64_t spin_time = 0, stall_time = 0;
     bool trace_time = false;
+    const char* budget_status = "inconclusive"; const char* budget_class = "budget";
 };
 static Global G;
 static __thread Task* self = nullptr;
@@ -194,6 +195,7 @@ static std::string jesc(const std::string& s) {
 
 void set_result_fd(int fd) { G.result_fd = fd; }
 void set_deadlock_handler(deadlock_handler h) { G.on_deadlock = h; }
+void set_budget_verdict(const char* status, const char* cls) { G.budget_status = status; G.budget_class = cls; }
 void set_finish_hook(finish_hook h) { G.on_finish = h; }
 void set_record_trace(bool on) { G.record = on; }
 void set_replay_trace(const uint32_t* pairs, size_t n) { G.rp = pairs; G.rpn = n; G.rpi = 0; G.replay = true; }
@@ -497,7 +499,7 @@ static inline void sched_point(Task* t, int kind) {
     if (cfg.cpu_cost_ns) G.now += cfg.cpu_cost_ns;
     if (G.next_deadline <= G.now) fire_timers();
     if (__builtin_expect(G.steps > cfg.max_steps, 0))
-        finish("inconclusive", "budget", "step budget %llu exhausted", (unsigned long long)cfg.max_steps);
+        finish(G.budget_status, G.budget_class, "step budget %llu exhausted", (unsigned long long)cfg.max_steps);
     if (G.replay) {
         if (G.rpi + 1 < G.rpn && G.rp[G.rpi] <= (uint32_t)G.steps) {
             if (G.rp[G.rpi] == (uint32_t)G.steps) {
